@@ -438,6 +438,19 @@ def run_C12(ctx):
 
 SPECS["C12"] = dict(
     level="proof",
+    manifest=dict(
+        text="Machine-checked theorems (Props/C12.v, closed under the global context): for every alternating op list and "
+             "every radius n, the model of group_diff_ops (in-place trimming of first/last Equal, split at len > 2n, drop of "
+             "Equal-only groups) equals an independent declarative reference group_ref; group_ref satisfies the relational "
+             "GroupSpec (context = min(n, available) items of the adjacent Equal run with the right indices, interior "
+             "Equals whole and <= 2n, groups separated exactly by Equals > 2n), GroupSpec determines the result uniquely, "
+             "every change appears once and in order (G2), no Equal-only group (G1), none without changes (G0). "
+             "The extracted check_groups (= equality with group_ref, reflection proved) is run on the real group_diff_ops "
+             "and Capture::into_grouped_ops outputs.",
+        note="Trusted: Coq kernel; extraction (ExtrOcamlBasic); OCaml driver and Rust harness glue. The tie of the model to "
+             "src/common.rs is differential testing over the exhaustive boundary-length world and random lists.",
+        technique="Coq proof (model = declarative reference, relational spec with uniqueness) + correspondence + verified checker on implementation output",
+    ),
     relevant=lambda comp, kv: {"no_panic", "group_spec"},
     run=run_C12,
     generators="group component: every alternating op list with up to 4/5 runs, starting with either kind, equal-run "
